@@ -1258,7 +1258,7 @@ var c05PostPushEffects = map[string]bool{
 
 func c05R2Wrappers(c *Ctx) {
 	const R = "C05.R2.wrapper-forwards-descriptor"
-	c.Expect(R, 9)
+	c.Expect(R, 8)
 	c05Wrappers(c, R, false)
 }
 
@@ -1270,84 +1270,179 @@ func c05Wrappers(c *Ctx, R string, refusalOnly bool) {
 		pkg, name string
 		effects   bool
 	}
+	effectNames := map[string]bool{
+		"(*~/internal/graph.Memory).Index": true, "(*~/internal/graph.Memory).IndexAll": true,
+		"(~/content.Tagger).Tag": true, "(*~/internal/resolver.Memory).Tag": true, "(~/content.TagResolver).Tag": true,
+	}
 	for _, x := range []w{{"content", "LimitedStorage.Push", false}, {"content/memory", "Store.Push", true}, {"content/oci", "Store.Push", true},
-		{"content/file", "Store.Push", true}, {"content/file", "Store.push", false}, {"internal/cas", "Proxy.Fetch", false}} {
+		{"content/file", "Store.Push", true}, {"internal/cas", "Proxy.Fetch", false}} {
 		fn := c.P.Fn(x.pkg, x.name)
 		if fn == nil || len(fn.Blocks) == 0 {
 			c.LostAnchor(R, x.pkg+"."+x.name)
 			continue
 		}
-		var descParam *ssa.Parameter
+		var descParam, rdParam *ssa.Parameter
 		for _, p := range fn.Params {
 			if c05IsOCIDescriptor(p.Type()) {
 				descParam = p
+			}
+			if nt, isN := p.Type().(*types.Named); isN && nt.Obj().Pkg() != nil && nt.Obj().Pkg().Path() == "io" && nt.Obj().Name() == "Reader" {
+				rdParam = p
 			}
 		}
 		if descParam == nil {
 			c.LostAnchor(R, FnName(fn)+": descriptor parameter")
 			continue
 		}
-		n := 0
+		root := c05Root(fn)
+		envs := c05TreeEnvs(root, 3)
+		// inner pushes of the caller's stream, anywhere in the call tree
+		type hit struct {
+			call ssa.CallInstruction
+			env  *c05Env
+		}
+		isInner := func(call ssa.CallInstruction, e *c05Env) (ssa.Value, bool) {
+			d, is := c05IsInnerPush(call)
+			if !is {
+				return nil, false
+			}
+			if rdParam != nil {
+				fromCaller := false
+				for _, a := range call.Common().Args {
+					if nt, isN := a.Type().(*types.Named); isN && nt.Obj().Name() == "Reader" {
+						for _, r := range c05ReaderSources(a, 0) {
+							if w, at := e.up(r); at.isRoot() && w == ssa.Value(rdParam) {
+								fromCaller = true
+							}
+						}
+					}
+				}
+				if !fromCaller {
+					return nil, false // e.g. restoring duplicates re-pushes other content read from the store itself
+				}
+			}
+			return d, true
+		}
+		var hits []hit
 		ok := true
 		pos := fn.Pos()
-		var inner []ssa.CallInstruction
-		for _, f := range append([]*ssa.Function{fn}, Anons(fn)...) {
-			for _, call := range Calls(f, func(string) bool { return true }) {
-				d, is := c05IsInnerPush(call)
+		for _, e := range envs {
+			for _, call := range Calls(e.Fn, func(string) bool { return true }) {
+				d, is := isInner(call, e)
 				if !is {
 					continue
 				}
-				n++
-				pos = call.Pos()
-				if f == fn {
-					inner = append(inner, call)
+				hits = append(hits, hit{call, e})
+				if e.isRoot() || pos == fn.Pos() {
+					pos = call.Pos()
 				}
-				if c05DescSource(d) != descParam {
+				p := c05DescSource(d)
+				if p == nil {
+					ok = false
+					continue
+				}
+				if w, at := e.up(p); !at.isRoot() || w != ssa.Value(descParam) {
 					ok = false
 				}
 			}
 		}
-		if n == 0 {
+		if len(hits) == 0 {
 			c.LostAnchor(R, FnName(fn)+": inner Push")
 			continue
 		}
 		if !refusalOnly {
 			c.Check(R, FnName(fn)+"|inner-push-gets-callers-descriptor", pos, ok,
 				ifelse(ok, "the inner Push verifies against the caller's descriptor (same Digest and Size)", "the wrapper hands a different descriptor to the inner Push than the one its caller named"))
-		} else {
-			for _, ip := range inner {
-				var tol []string
-				if x.pkg == "content/file" {
-					tol = []string{"~/content/file.errSkipUnnamed"}
-				}
-				r := ErrFlow(ip, ErrFlowOpts{Tolerated: tol})
-				c.Check(R, FnName(fn)+"|inner-push-refusal-returned", ip.Pos(), r.OK,
-					ifelse(r.OK, "a refusal of the inner Push (already exists / duplicate name / mismatch) is returned: "+r.How, "a refusal of the inner Push can be reported as success: "+r.Detail))
+		} else if ErrResultIndex(fn.Signature) >= 0 && rdParam != nil {
+			okR, detail := true, ""
+			var tol []string
+			if x.pkg == "content/file" {
+				tol = []string{"~/content/file.errSkipUnnamed"}
 			}
+			seen := map[ssa.Instruction]bool{}
+			for _, h := range hits {
+				chain := []ssa.CallInstruction{h.call}
+				for e := h.env; e.Parent != nil && e.Call != nil; e = e.Parent {
+					chain = append(chain, e.Call)
+				}
+				for _, call := range chain {
+					if seen[call.(ssa.Instruction)] {
+						continue
+					}
+					seen[call.(ssa.Instruction)] = true
+					r := ErrFlow(call, ErrFlowOpts{Tolerated: tol})
+					if !r.OK {
+						okR, detail = false, r.Detail
+					} else if detail == "" {
+						detail = r.How
+					}
+				}
+			}
+			c.Check(R, FnName(fn)+"|inner-push-refusal-returned", pos, okR,
+				ifelse(okR, "a refusal of the inner Push (already exists / duplicate name / mismatch) is returned: "+detail, "a refusal of the inner Push can be reported as success: "+detail))
 		}
 		if !x.effects {
 			continue
 		}
-		var nilE []Edge
-		for _, ip := range inner {
-			nilE = append(nilE, c05NilEdgesOf(ip)...)
-		}
+		// success of the inner push, seen from each level of the call tree
+		spec := c05PassSpec{Success: true, Edges: func(e *c05Env) []Edge {
+			var out []Edge
+			for _, call := range Calls(e.Fn, func(string) bool { return true }) {
+				if _, is := isInner(call, e); is {
+					out = append(out, c05NilEdgesOf(call)...)
+				}
+			}
+			return out
+		}}
 		okE, bad := true, ""
 		ne := 0
-		for _, call := range Calls(fn, func(nm string) bool { return c05PostPushEffects[nm] }) {
-			if _, isDefer := call.(*ssa.Defer); isDefer {
-				okE, bad = false, CalleeName(call)+" (deferred)"
-				continue
-			}
-			ne++
-			if !MustPass(call.(ssa.Instruction), newCut().Edges(nilE...)) {
-				okE, bad = false, CalleeName(call)
+		for _, e := range envs {
+			for _, call := range Calls(e.Fn, func(nm string) bool { return effectNames[nm] }) {
+				if _, isDefer := call.(*ssa.Defer); isDefer {
+					okE, bad = false, CalleeName(call)+" (deferred)"
+					continue
+				}
+				ne++
+				dominated := false
+				var tgt ssa.Instruction = call.(ssa.Instruction)
+				for lv := e; lv != nil && tgt != nil; lv = lv.Parent {
+					ct := c05PassCut(lv, spec)
+					if (len(ct.edges) > 0 || len(ct.instrs) > 0) && MustPass(tgt, ct) {
+						dominated = true
+						break
+					}
+					if lv.Call == nil {
+						break
+					}
+					tgt = lv.Call.(ssa.Instruction)
+				}
+				if !dominated {
+					okE, bad = false, CalleeName(call)+" in "+FnName(e.Fn)
+				}
 			}
 		}
 		c.Check(R, FnName(fn)+"|bookkeeping-only-after-successful-inner-push", pos, okE,
-			ifelse(okE, fmt.Sprintf("%d bookkeeping effect(s) (index/tag/restore) all lie behind the err==nil edge of the inner Push", ne),
+			ifelse(okE, fmt.Sprintf("%d bookkeeping effect(s) (index/tag) all lie behind the err==nil edge of the inner Push", ne),
 				bad+" is reachable although the inner Push did not succeed: tags / graph entries would name content that was refused"))
 	}
+}
+
+// c05ReaderSources: the reader values a reader expression is built from
+// (through io.LimitReader / TeeReader / NopCloser style wrappers).
+func c05ReaderSources(v ssa.Value, depth int) []ssa.Value {
+	var out []ssa.Value
+	for _, r := range Roots(v) {
+		r = strip(r)
+		out = append(out, r)
+		if call, ok := r.(*ssa.Call); ok && depth < 3 {
+			for _, a := range call.Call.Args {
+				if _, isIface := a.Type().Underlying().(*types.Interface); isIface {
+					out = append(out, c05ReaderSources(a, depth+1)...)
+				}
+			}
+		}
+	}
+	return out
 }
 
 // c05DescSource resolves a descriptor value to the parameter whose Digest and
